@@ -29,18 +29,9 @@ theorem C12_final (T : TextOracle) (hash : Bool) (x : Bytes) :
 
 /- from `Peppi.Lemmas.C12Cols` -/
 open Extracted in
-theorem eventLoop_extends : ∀ (fuel rawLen : Nat) (ps : ParseState) (bs : Bytes) (ps' : ParseState) (rest : Bytes),
-    eventLoop fuel rawLen ps bs = .ok (ps', rest) → ps.st.frames.Ext ps'.st.frames
-  | 0, _, _, _, _, _, h => by simp [eventLoop] at h
-  | fuel + 1, rawLen, ps, bs, ps', rest, h => by
-    unfold eventLoop at h
-    split at h
-    · cases hp : parseEvent ps bs with
-      | err e => simp [hp] at h
-      | panic e => simp [hp] at h
-      | ok x =>
-        obtain ⟨⟨code, ps1⟩, r1⟩ :=
-  _root_.Peppi.eventLoop_extends 
+theorem eventLoop_extends (fuel rawLen : Nat) (ps : ParseState) (bs : Bytes) (ps' : ParseState) (rest : Bytes)
+    (h : eventLoop fuel rawLen ps bs = .ok (ps', rest)) : ps.st.frames.Ext ps'.st.frames :=
+  _root_.Peppi.eventLoop_extends fuel rawLen ps bs ps' rest h
 
 /- from `Peppi.Lemmas.C12Cols` -/
 open Extracted in
